@@ -333,7 +333,6 @@ func VH_C03_TicksAndFramesRange() {
 // parent/style references and inline attributes, one <p> per cue with begin/end and references, runs as spans
 // separated by one <br/> per line break, title/copyright/language - for every iteration order of the maps.
 func VH_C03_PreEncode() {
-	vengineOnly()
 	vmode("int")
 	k := choose(vbound("shapes", 12, 36))
 	s := NewSubtitles()
@@ -353,6 +352,12 @@ func VH_C03_PreEncode() {
 	st1 := nondetInt64(0, 3599) * 1000000000
 	nl := 1 + (k/3)%2
 	it := &Item{StartAt: time.Duration(st1), EndAt: time.Duration(st1 + 2000000000), Region: rg, Style: s.Styles[ids[(k+1)%ns]], InlineStyle: &StyleAttributes{TTMLTextAlign: vstrp("center")}}
+	// a cue may begin with an empty line (a line without runs): it is a line break before the first span
+	lead := 0
+	if (k/2)%3 == 1 {
+		lead = 1
+		it.Lines = append(it.Lines, Line{})
+	}
 	for l := 0; l < nl; l++ {
 		it.Lines = append(it.Lines, Line{Items: []LineItem{{Text: "x" + string(rune('0'+l))}, {Text: "y", Style: s.Styles[ids[0]], InlineStyle: &StyleAttributes{TTMLFontStyle: vstrp("italic")}}}})
 	}
@@ -362,6 +367,23 @@ func VH_C03_PreEncode() {
 	vmaporder(true)
 	err := s.WriteToTTML(&buf)
 	vmaporder(false)
+	if vnative() {
+		// native run: the real encoder wrote the document; what can be observed of the value is what the library's
+		// reader gets back from it (same labels for the clauses it can see)
+		vassert(err == nil, "C03 pre-encode: one document handed to the encoder")
+		r, rerr := ReadFromTTML(&buf)
+		vassert(rerr == nil && len(r.Items) == 2, "C03 pre-encode: one paragraph per cue")
+		if rerr != nil || len(r.Items) != 2 {
+			return
+		}
+		ri := r.Items[0]
+		vassert(int64(ri.StartAt) == st1 && int64(ri.EndAt) == st1+2000000000, "C03 pre-encode: begin and end")
+		vassert(ri.Region != nil && ri.Region.ID == "r1" && ri.Style != nil && ri.Style.ID == ids[(k+1)%ns], "C03 pre-encode: paragraph references and inline attributes")
+		vassert(len(ri.Lines) == len(it.Lines), "C03 pre-encode: runs as spans, one br per line break")
+		vassert(len(r.Styles) == ns, "C03 pre-encode: every style")
+		vassert(len(r.Regions) == 2, "C03 pre-encode: regions sorted by id with style reference and attributes")
+		return
+	}
 	vassert(err == nil && len(vxmlCaptured) == 1, "C03 pre-encode: one document handed to the encoder")
 	if err != nil || len(vxmlCaptured) != 1 {
 		return
@@ -393,8 +415,12 @@ func VH_C03_PreEncode() {
 	p := out.Subtitles[0]
 	vassert(int64(p.Begin) == st1 && int64(p.End) == st1+2000000000, "C03 pre-encode: begin and end")
 	vassert(p.Region == "r1" && p.Style == ids[(k+1)%ns] && p.TextAlign != nil && *p.TextAlign == "center", "C03 pre-encode: paragraph references and inline attributes")
-	vassert(len(p.Items) == nl*2+(nl-1), "C03 pre-encode: runs as spans, one br per line break")
+	vassert(len(p.Items) == lead+nl*2+(nl-1), "C03 pre-encode: runs as spans, one br per line break")
 	pos := 0
+	if lead == 1 && len(p.Items) > 0 {
+		vassert(p.Items[0].XMLName.Local == "br", "C03 pre-encode: a leading empty line is a leading br")
+		pos = 1
+	}
 	for l := 0; l < nl; l++ {
 		if pos+1 < len(p.Items) {
 			vassert(p.Items[pos].XMLName.Local == "span" && p.Items[pos].Text == "x"+string(rune('0'+l)) && p.Items[pos+1].Text == "y" && p.Items[pos+1].Style == ids[0] &&
